@@ -35,9 +35,15 @@ func (e TagErr) Error() string { return fmt.Sprintf("%s error %d", e.Kind, e.Tag
 type Enc struct {
 	Park chan chan struct{} // when non-nil, Unmarshal announces itself here and waits
 	Fail bool               // Unmarshal returns an error
+	MPark chan chan struct{} // when non-nil, Marshal announces itself here and waits
 }
 
 func (e *Enc) Marshal(msg drpc.Message) ([]byte, error) {
+	if e.MPark != nil {
+		rel := make(chan struct{})
+		e.MPark <- rel
+		<-rel
+	}
 	switch m := msg.(type) {
 	case []byte:
 		return m, nil
@@ -137,6 +143,7 @@ type World struct {
 	S       *drpcstream.Stream
 	Enc     *Enc
 	parked  map[int]chan struct{} // tid -> release channel of a parked Unmarshal
+	mparked map[int]chan struct{} // tid -> release channel of a parked Marshal
 	remotes remoteTable
 	issued  []int
 	kinds   map[int]string
@@ -147,7 +154,7 @@ type World struct {
 }
 
 func NewWorld(split int, manual bool, wsize int) *World {
-	w := &World{D: director.New(), W: &director.Writer{AutoOK: true}, parked: map[int]chan struct{}{}, remotes: remoteTable{}, seen: map[int]bool{}, kinds: map[int]string{}}
+	w := &World{D: director.New(), W: &director.Writer{AutoOK: true}, parked: map[int]chan struct{}{}, mparked: map[int]chan struct{}{}, remotes: remoteTable{}, seen: map[int]bool{}, kinds: map[int]string{}}
 	w.Enc = &Enc{}
 	wr := drpcwire.NewWriter(w.W, wsize)
 	w.S = drpcstream.NewWithOptions(context.Background(), 1, wr, drpcstream.Options{SplitSize: split, ManualFlush: manual})
@@ -184,6 +191,12 @@ func (w *World) Do(act string) string {
 			delete(w.parked, tid)
 			close(ch)
 		}
+	case "m":
+		tid, _ := strconv.Atoi(f[1])
+		if ch := w.mparked[tid]; ch != nil {
+			delete(w.mparked, tid)
+			close(ch)
+		}
 	case "auto":
 		w.W.SetAuto(f[1] == "1")
 	}
@@ -210,6 +223,18 @@ func (w *World) issue(tid int, call string) {
 	case "send":
 		d := unhex(f[1])
 		w.D.Go(name, func() string { return w.retName(s.MsgSend(d, w.Enc)) })
+	case "sendp":
+		d := unhex(f[1])
+		enc := &Enc{MPark: make(chan chan struct{}, 1)}
+		go func(e *Enc) {
+			rel, ok := <-e.MPark
+			if ok {
+				w.D.Lock()
+				w.mparked[tid] = rel
+				w.D.Unlock()
+			}
+		}(enc)
+		w.D.Go(name, func() string { return w.retName(s.MsgSend(d, enc)) })
 	case "raw":
 		k, _ := strconv.Atoi(f[1])
 		d := unhex(f[2])
@@ -286,6 +311,9 @@ func (w *World) remember(tid int, call string) {
 	if strings.HasPrefix(cls, "recv") {
 		cls = "recv"
 	}
+	if cls == "sendp" {
+		cls = "send"
+	}
 	if cls == "pkt" {
 		if strings.HasPrefix(call, "pkt:2:") {
 			cls = "pktmsg"
@@ -350,17 +378,29 @@ func (w *World) observe() string {
 // Cleanup releases everything that is still parked so that the goroutines of this world exit.
 func (w *World) Cleanup() {
 	w.W.SetAuto(true)
-	for i := 0; i < 50; i++ {
-		if !w.W.Release(TagErr{"transport", 99}) {
+	w.D.Go("cleanup-cancel", func() string { w.S.Cancel(TagErr{"ctx", 99}); return "" })
+	for round := 0; round < 60; round++ {
+		w.D.Settle()
+		progress := w.W.Release(TagErr{"transport", 99})
+		w.D.Lock()
+		var chans []chan struct{}
+		for tid, ch := range w.parked {
+			delete(w.parked, tid)
+			chans = append(chans, ch)
+		}
+		for tid, ch := range w.mparked {
+			delete(w.mparked, tid)
+			chans = append(chans, ch)
+		}
+		w.D.Unlock()
+		for _, ch := range chans {
+			close(ch)
+			progress = true
+		}
+		if !progress {
 			break
 		}
-		w.D.Settle()
 	}
-	for tid, ch := range w.parked {
-		delete(w.parked, tid)
-		close(ch)
-	}
-	w.S.Cancel(TagErr{"ctx", 99})
 	w.D.Settle()
 	if p := w.D.Pending(); len(p) > 0 {
 		sort.Strings(p)
